@@ -78,7 +78,7 @@ def extract(repo="/repo", cfg="log", target_dir=None, keep=False):
     e["CARGO_TARGET_DIR"] = tdir
     # serialise concurrent checks on the shared per-configuration target dir
     import fcntl
-    with open(os.path.join(CACHE, "target-%s.lock" % cfg), "w") as lk:
+    with open(tdir.rstrip("/") + ".lock", "w") as lk:
         fcntl.flock(lk, fcntl.LOCK_EX)
         # force the member crate to be re-checked by our wrapper
         for fp in glob.glob(os.path.join(tdir, "debug", ".fingerprint", "embedded-sdmmc-*")):
